@@ -399,6 +399,7 @@ func (s *Storer) GetAofWritter(r io.Reader, offset int64) (*AofWriter, error) {
 
 	aofSeg := &dataSetAof{
 		left: offset,
+		size: -1, // being written, like the segments created on rotation
 	}
 	s.dataSetMux.Lock()
 	s.dataSet.AppendAof(aofSeg)
